@@ -18,11 +18,11 @@ import (
 
 func init() {
 	vc.Register(&vc.Check{ID: "C11", Level: "fault_enumeration", Run: run, Replay: replay, QuickSec: 170, ThoroSec: 2400,
-		Rule:   "for each chip configuration the fault-free read is run and its N exchanges numbered; then for EVERY exchange index k in [0,N) and EVERY fault kind of the 16-entry menu (bare 6A82, bare 6283, empty, first byte only, last byte dropped, first half, data bit flipped, SW bit flipped, 1 byte appended, 300 bytes appended, SW:=6A82/6982/6700/6300, bare 9000, previous response replayed) one complete execution of the real Reader.ReadDocument against the independent chip (D=1: N x 16 per configuration); D=2 = all ordered pairs of faults (quick: 4 session-continuing kinds on the smallest configuration; thorough: all 16 x 16 kinds on three configurations), which replaces 'random multi-fault sequences' by an exhaustive bound. Horizon: more than 20 N exchanges = livelock. Oracle from the chip's own truth: no panic escapes; every file returned is byte-identical to the chip's; no protocol reported successful that the chip did not complete; DataTrusted only if issuer trusted and all returned files genuine; a faulted read (fault on a protected exchange) that reports neither an error nor a failed step must be indistinguishable from the fault-free read (no silent degradation). distinct_nontrivial = distinct (configuration, k, fault kind, outcome signature)",
+		Rule:   "for each chip configuration the fault-free read is run and its N exchanges numbered; then for EVERY exchange index k in [0,N) and EVERY fault kind of the 20-entry menu (bare 6A82, bare 6283, empty, first byte only, last byte dropped, first half, data bit flipped, SW bit flipped, 1 byte appended, 300 bytes appended, data field extended by one octet / doubled with the status word intact (oversized), data field shortened by one octet / to its first half with the status word intact (truncated), SW:=6A82/6982/6700/6300, bare 9000, previous response replayed) one complete execution of the real Reader.ReadDocument against the independent chip (D=1: N x 20 per configuration); D=2 = all ordered pairs of faults (quick: 4 session-continuing kinds on the smallest configuration; thorough: all 20 x 20 kinds on three configurations), which replaces 'random multi-fault sequences' by an exhaustive bound. Horizon: more than 20 N exchanges = livelock. Oracle from the chip's own truth: no panic escapes; every file returned is byte-identical to the chip's (on clear-text exchanges: unless the response was altered in content while staying within the requested length, which no transport can notice - then passive authentication must record the failure); no protocol reported successful that the chip did not complete; DataTrusted only if issuer trusted and all returned files genuine; a faulted read (fault on a protected exchange) that reports neither an error nor a failed step must be indistinguishable from the fault-free read (no silent degradation). distinct_nontrivial = distinct (configuration, k, fault kind, outcome signature)",
 		Assume: []string{"content corruption of the plaintext EF.CardAccess read (before any session exists) is undetectable by any implementation; byte-identity of CardAccess is therefore not asserted for faults on unprotected exchanges", "faults are applied to the response bytes on the wire; the chip itself behaves conformingly"}})
 }
 
-var faultKinds = []string{"bare-6A82", "bare-6283", "empty", "first-byte-only", "last-byte-dropped", "first-half", "data-bit-flipped", "sw-bit-flipped", "one-byte-appended", "300-bytes-appended",
+var faultKinds = []string{"bare-6A82", "bare-6283", "empty", "first-byte-only", "last-byte-dropped", "first-half", "data-bit-flipped", "sw-bit-flipped", "one-byte-appended", "300-bytes-appended", "data-extended-by-1", "data-doubled", "data-last-byte-dropped", "data-first-half",
 	"sw:=6A82", "sw:=6982", "sw:=6700", "sw:=6300", "bare-9000", "previous-response"}
 
 func applyFault(kind string, genuine, prev []byte) []byte {
@@ -58,6 +58,28 @@ func applyFault(kind string, genuine, prev []byte) []byte {
 	case "sw-bit-flipped":
 		if len(g) >= 2 {
 			g[len(g)-2] ^= 1
+		}
+		return g
+	case "data-extended-by-1":
+		// OVERSIZED data field with the status word intact: one octet more than the chip sent
+		if len(g) >= 2 {
+			return append(append(append([]byte{}, g[:len(g)-2]...), 0x00), g[len(g)-2:]...)
+		}
+		return g
+	case "data-doubled":
+		if len(g) >= 2 {
+			return append(append(append([]byte{}, g[:len(g)-2]...), g[:len(g)-2]...), g[len(g)-2:]...)
+		}
+		return g
+	case "data-last-byte-dropped":
+		// TRUNCATED data field with the status word intact (a legal short read of genuine bytes)
+		if len(g) >= 3 {
+			return append(append([]byte{}, g[:len(g)-3]...), g[len(g)-2:]...)
+		}
+		return g
+	case "data-first-half":
+		if len(g) >= 3 {
+			return append(append([]byte{}, g[:(len(g)-2)/2]...), g[len(g)-2:]...)
 		}
 		return g
 	case "one-byte-appended":
@@ -132,7 +154,19 @@ func configs(thorough bool) []chipCfg {
 		}},
 		chipCfg{Name: "no-access-control+AA-only", Cfg: func() perso.Config {
 			return perso.Config{DGs: []int{2}, AA: &perso.AASpec{RSABits: 1024, Trailer: "BC"}}
-		}, Tune: func(chip *refchip.Chip) { chip.NoAccessRules = true }})
+		}, Tune: func(chip *refchip.Chip) { chip.NoAccessRules = true }},
+		// elementary files that are LARGER than the data object they hold (bytes behind it - here shaped like empty data objects - as on chips with
+		// fixed-size files): a read that takes a wrong size returns padding instead of failing at the end of file
+		chipCfg{Name: "no-access-control+padded-files", Cfg: func() perso.Config {
+			return perso.Config{DGs: []int{11}}
+		}, Tune: func(chip *refchip.Chip) {
+			chip.NoAccessRules = true
+			for _, fs := range []map[uint16]*refchip.EF{chip.MF, chip.LDS} {
+				for _, f := range fs {
+					f.Data = append(append([]byte{}, f.Data...), 0x04, 0x00, 0x04, 0x00, 0x04)
+				}
+			}
+		}})
 	if thorough {
 		out = append(out,
 			chipCfg{Name: "PACE-GM/le-cap-128-fallback", Cfg: func() perso.Config {
@@ -199,6 +233,7 @@ func runCase(cc chipCfg, faults []fault, n int) result {
 	limit := 20*n + 1100 // above the library's own 1000-chunk bound
 	overrun := false
 	unprotectedFault := false
+	undetectableClearFault := false // some clear-text fault kept the response within the requested length
 	var prev []byte
 	chip.Fault = func(i int, genuine []byte) []byte {
 		defer func() { prev = genuine }()
@@ -208,10 +243,24 @@ func runCase(cc chipCfg, faults []fault, n int) result {
 		}
 		for _, f := range faults {
 			if f.K == i {
+				out := applyFault(f.Kind, genuine, prev)
 				if !chip.Log[i].Protected {
 					unprotectedFault = true
+					// a clear-text response whose data field is longer than the command's Le is visibly oversized: the
+					// transport CAN notice it (unlike a same-length alteration), so no returned file may differ
+					oversized := false
+					if pl := chip.Log[i].Plain; pl != nil && pl.Le > 0 && len(out)-2 > pl.Le && len(out) > len(genuine) {
+						oversized = true
+					}
+					// a response that delivers a genuine PREFIX of the chip's data with the chip's status word alters no
+					// content either: a short read, from which a correct reader assembles the right file or fails
+					prefix := len(out) >= 2 && len(genuine) >= 2 && len(out) <= len(genuine) &&
+						bytes.Equal(out[len(out)-2:], genuine[len(genuine)-2:]) && bytes.HasPrefix(genuine, out[:len(out)-2])
+					if !oversized && !prefix {
+						undetectableClearFault = true
+					}
 				}
-				return applyFault(f.Kind, genuine, prev)
+				return out
 			}
 		}
 		return nil
@@ -249,7 +298,7 @@ func runCase(cc chipCfg, faults []fault, n int) result {
 		var want []byte
 		switch d {
 		case 0x1C:
-			if unprotectedFault {
+			if unprotectedFault && undetectableClearFault {
 				// EF.CardAccess is read in the clear: the link can alter it unnoticed at the transport level. What the
 				// library CAN notice is a CardAccess that is not contained in an (authenticated) DG14: judged below.
 				if !bytes.Equal(got, p.CardAccess) {
@@ -263,7 +312,7 @@ func runCase(cc chipCfg, faults []fault, n int) result {
 		default:
 			want = p.Files[d]
 		}
-		if !bytes.Equal(got, want) && unprotectedFault {
+		if !bytes.Equal(got, want) && unprotectedFault && undetectableClearFault {
 			// the fault hit an exchange outside secure messaging (a chip without access control, or the clear-text
 			// prologue): the transport cannot notice. Files covered by the security object must then be caught by
 			// passive authentication (judged against the fault-free run in judgeCase); EF.COM is covered by nothing.
@@ -450,7 +499,7 @@ func run(c *vc.Ctx) {
 		}
 	}
 d2:
-	c.SecBound(sec1, fmt.Sprintf("%d configurations, exchanges per fault-free read %v, 16 fault kinds", len(cfgs), ns))
+	c.SecBound(sec1, fmt.Sprintf("%d configurations, exchanges per fault-free read %v, %d fault kinds", len(cfgs), ns, len(faultKinds)))
 	c.Extra("fault_free_exchanges", ns)
 	// D = 2 on the smallest configuration
 	sec2 := "D=2: all ordered pairs of faults"
